@@ -200,10 +200,23 @@ def e2e_cases(draw):
     opts = {
         'test': draw(pats(tnames + cnames, ['test_[a-c]', r'TC\d \(', r'\.TC1\.'])),
         'module': draw(pats(['t_' + m for m in mnames], ['t_[ab]$', '^w'])),
-        'layer': draw(pats(lnames or ['LA'], ['UnitTests', 'layers', 'zope'])),
+        # ('{mp}' is replaced by the world's module prefix when the case is executed: full dotted layer names)
+        'layer': draw(pats((lnames or ['LA']) + ['{mp}layers.%s' % n for n in lnames], ['UnitTests', 'layers', 'zope',
+                                                                                          'zope.testrunner.layer.UnitTests'])),
         'all': True,
         'verbose': draw(st.integers(0, 1)),
     }
+    # modules in packages, packages searched again through --package-path (the -m filter sees the full dotted name)
+    for m in spec['modules']:
+        pkg = draw(st.sampled_from([None, None, 'pk', 'pk.sub']))
+        if pkg:
+            m['pkg'] = pkg
+    used = sorted({m['pkg'] for m in spec['modules'] if m.get('pkg')})
+    if used and draw(st.booleans()):
+        spec['package_paths'] = draw(st.lists(st.sampled_from(used), min_size=1, max_size=2, unique=True))
+    if used:
+        opts['module'] = opts['module'] + draw(st.lists(st.sampled_from(
+            ['pk', r'pk\.', '!pk', r'^{mp}pk\.', r'sub\.', '!sub', r'^{mp}t_']), max_size=2))
     legacy = draw(st.sampled_from([None, None, 'mod', 'mod+test', 'dot+test']))
     opts['legacy'] = None
     if legacy:
@@ -223,6 +236,8 @@ class EndToEnd(Part):
     def execute(self, case):
         spec = common.with_prefix(case['spec'])
         opts = dict(case['opts'])
+        for k in ('layer', 'module'):
+            opts[k] = [p.replace('{mp}', spec['mp']) for p in opts[k]]
         args = common.args_of(opts)
         tp, mp, lp = list(opts['test']), list(opts['module']), list(opts['layer'])
         if opts.get('legacy'):
@@ -266,6 +281,10 @@ class EndToEnd(Part):
                 labels.append(nm)
         if opts.get('legacy'):
             labels.append('legacy-positional')
+        if case['spec'].get('package_paths'):
+            labels.append('package-path')
+        if any(p.startswith(spec['mp'] + 'layers.') or p.startswith('!' + spec['mp'] + 'layers.') for p in lp):
+            labels.append('full-layer-name-pattern')
         total = sum(1 for _ in gen.iter_tests(spec))
         nontrivial = 0 < len(want) < total and any(':pos+neg' in x for x in labels)
         return Outcome(viol, labels, nontrivial)
